@@ -166,8 +166,12 @@ class Checks:
         """verdict: True proved / False refuted (recognised shape, wrong) / None shape not recognised."""
         if verdict is None:
             self.obls.append(ground_obligation(oid, False, detail or "shape not recognised", loc, definite=False))
+        elif verdict is False:
+            # a verdict read off the SHAPE of the code is a suspicion, not a counterexample: `unknown`, and the native
+            # replayer (REPLAY_UNKNOWN) produces the failing document -- or the obligation stays undecided
+            self.obls.append(ground_obligation(oid, False, "suspicious: " + (detail or ""), loc, definite=False))
         else:
-            self.obls.append(ground_obligation(oid, bool(verdict), detail, loc, definite=True))
+            self.obls.append(ground_obligation(oid, True, detail, loc, definite=True))
 
     def fn(self, mod, qual, n=1):
         if qual in mod.functions:
@@ -208,39 +212,169 @@ def construction_sites(repo, tier):
     return {"obligations": C.obls, "functions": C.fns}
 
 
+# ---------------------------------------------------------------- provenance-based site checks --
+def _order_site(C, m, rel, fnq, oid, exprs_of, root_has, need_kind, what):
+    """The sequence reaching a sink (constructor keyword / return value) draws its elements from the source named by
+    `root_has`, in order, one per source element (need_kind="map") or at most one ("filter").  Decided by data-flow
+    provenance (contracts/c03_prov.py); a flow that is not understood is `unknown`."""
+    from contracts import c03_prov as P
+    fn = m.functions.get(fnq)
+    if fn is None:
+        C.add(oid, None, f"{fnq} missing")
+        return None
+    ctx = P.Ctx(m, fn, fnq)
+    exprs = exprs_of(fn)
+    if not exprs:
+        C.add(oid, None, f"sink of {what} not found")
+        return None
+    provs = []
+    for e in exprs:
+        p_ = P.provenance(ctx, e)
+        if p_ is None:
+            C.add(oid, None, f"data flow into {what} not understood: {ast.unparse(e)[:60]}")
+            return None
+        if p_.root != "<empty>":
+            provs.append(p_)
+    if not provs:
+        C.add(oid, None, f"{what} is always empty")
+        return None
+    p0 = provs[0]
+    if any(p_.reordered for p_ in provs):
+        C.add(oid, False, next(p_.why for p_ in provs if p_.reordered), f"{rel}:{fn.lineno}")
+        return None
+    if len({p_.root for p_ in provs}) != 1 or not any(h in p0.root.replace(" ", "") for h in root_has):
+        C.add(oid, None, f"{what} is drawn from {sorted({p_.root for p_ in provs})}, expected a source mentioning one of {list(root_has)}")
+        return None
+    kinds = {p_.kind for p_ in provs}
+    if need_kind == "map" and kinds != {"map"}:
+        C.add(oid, None, f"{what}: some source elements may be skipped (flow kind {sorted(kinds)})")
+        return None
+    C.add(oid, True, f"{what} <- {p0.root} ({'one per element' if kinds == {'map'} else 'at most one per element'}, order kept)", f"{rel}:{fn.lineno}")
+    C.fn(m, fnq)
+    return p0
+
+
+def _resolve_local(fn, expr, within):
+    """follow `x = y` aliases defined once inside `within` (a loop body / function)"""
+    seen = 0
+    while isinstance(expr, ast.Name) and seen < 4:
+        defs = [n for n in ast.walk(within) if isinstance(n, ast.Assign) and len(n.targets) == 1 and isinstance(n.targets[0], ast.Name)
+                and n.targets[0].id == expr.id]
+        if len(defs) != 1 or not isinstance(defs[0].value, ast.Name):
+            break
+        expr = defs[0].value
+        seen += 1
+    return expr
+
+
+def _resolve_value(within, expr):
+    """value expression of a local defined once inside `within` (else the expression itself)"""
+    seen = 0
+    while isinstance(expr, ast.Name) and seen < 4:
+        defs = [n for n in ast.walk(within) if isinstance(n, ast.Assign) and len(n.targets) == 1 and isinstance(n.targets[0], ast.Name)
+                and n.targets[0].id == expr.id]
+        if len(defs) != 1:
+            break
+        expr = defs[0].value
+        seen += 1
+    return expr
+
+
+def _is_len_plus_one(e, lst):
+    if isinstance(e, ast.BinOp) and isinstance(e.op, ast.Add):
+        for a, b in ((e.left, e.right), (e.right, e.left)):
+            if isinstance(b, ast.Constant) and b.value == 1 and isinstance(a, ast.Call) and dotted(a.func) == "len" and len(a.args) == 1 \
+                    and isinstance(a.args[0], ast.Name) and a.args[0].id == lst:
+                return True
+    return False
+
+
+def _number_site(C, m, rel, oid, prov, elem_ctor, num_field, first_of_tuple_ok=True):
+    """Element k produced by `prov.loop` carries number k: the loop is `enumerate(<source>, start=1)` and the enumerate index
+    reaches <elem_ctor>(<num_field>=...) -- directly, or as an argument of a same-module helper all of whose return values are
+    <elem_ctor>(<num_field>=<that parameter>)."""
+    if prov is None:
+        return C.add(oid, None, "order of the elements not established")
+    lp, fn = prov.loop, prov.fn
+    if lp is None:
+        return C.add(oid, None, "elements are not produced by a loop")
+    idx = prov.index or "<no enumerate index>"
+    off = f"enumerate starts at {prov.start} and its index becomes the number unchanged: element numbers must be 1-based positions" if prov.start != 1 else None
+    body = lp if isinstance(lp, ast.For) else lp
+    if any(isinstance(n, ast.Name) and n.id == idx and isinstance(n.ctx, ast.Store) for b in (lp.body if isinstance(lp, ast.For) else []) for n in ast.walk(b)):
+        return C.add(oid, None, f"{idx} reassigned in the loop")
+    elem = prov.elem
+    if elem is None:
+        return C.add(oid, None, "appended element not recognised")
+    call = None
+    if isinstance(elem, ast.Name):
+        defs = [n for n in ast.walk(body) if isinstance(n, ast.Assign) and any(
+            (isinstance(t, ast.Name) and t.id == elem.id) or (isinstance(t, ast.Tuple) and t.elts and isinstance(t.elts[0], ast.Name) and t.elts[0].id == elem.id)
+            for t in n.targets)]
+        if len(defs) != 1 or not isinstance(defs[0].value, ast.Call):
+            return C.add(oid, None, f"{elem.id} is not the result of one call")
+        call = defs[0].value
+        tupled = isinstance(defs[0].targets[0], ast.Tuple)
+    elif isinstance(elem, ast.Call):
+        call, tupled = elem, False
+    else:
+        return C.add(oid, None, "appended element not recognised")
+    callee = dotted(call.func)
+    if callee.split(".")[-1] == elem_ctor:
+        k = kw(call, num_field)
+        k = _resolve_local(fn, k, body) if k is not None else None
+        ok = isinstance(k, ast.Name) and k.id == idx
+        if ok and off:
+            return C.add(oid, False, off, f"{rel}:{lp.lineno}")
+        return C.add(oid, True if ok else None, f"{elem_ctor}({num_field}={ast.unparse(k) if k is not None else '<default>'})", f"{rel}:{lp.lineno}")
+    if callee not in m.functions:
+        return C.add(oid, None, f"element produced by {callee or ast.unparse(call.func)[:30]}, not a helper of this module")
+    cfn = m.functions[callee]
+    params = [a.arg for a in cfn.args.posonlyargs + cfn.args.args]
+    passed = {}
+    for p_, a in zip(params, call.args):
+        passed[p_] = a
+    for k_ in call.keywords:
+        if k_.arg:
+            passed[k_.arg] = k_.value
+    num_params = [p_ for p_, a in passed.items() if isinstance(_resolve_local(fn, a, body), ast.Name) and _resolve_local(fn, a, body).id == idx]
+    # which parameter of the helper becomes the number of the returned element?
+    before = len(C.obls)
+    sub = Checks()
+    cand = None
+    for p_ in params:
+        t = Checks()
+        _returns_numbered(t, m, rel, callee, "probe", elem_ctor, num_field, p_, first_of_tuple=tupled, allow_none=True)
+        if t.obls and t.obls[0]["status"] == "proved":
+            cand = p_
+            break
+    if cand is None:
+        return C.add(oid, None, f"{callee} does not return {elem_ctor}({num_field}=<one of its parameters>) on every path")
+    if cand in num_params and off:
+        return C.add(oid, False, off, f"{rel}:{lp.lineno}")
+    if cand in num_params:
+        C.add(oid, True, f"enumerate index {idx} (start=1) -> {callee}({cand}=...) -> {elem_ctor}({num_field}={cand})", f"{rel}:{lp.lineno}")
+        C.fn(m, callee)
+        return
+    got = passed.get(cand)
+    g_ = _resolve_value(body, got) if got is not None else None
+    if g_ is not None and prov.kind == "map" and prov.lst and _is_len_plus_one(g_, prov.lst):
+        # exactly one element is appended per iteration, so len(<list>) + 1 evaluated before the append is the 1-based position
+        C.add(oid, True, f"{callee}({cand}=len({prov.lst}) + 1) with exactly one append per iteration -> {elem_ctor}({num_field}={cand})", f"{rel}:{lp.lineno}")
+        C.fn(m, callee)
+        return
+    # another expression is passed as the number: it may or may not equal the position -- the native replayer decides
+    return C.add(oid, None, f"{callee} numbers its result with parameter {cand}, which receives {ast.unparse(got) if got is not None else '<default>'}, "
+                            f"not the enumerate index {idx}")
+
+
+
 def _pdf(C, repo):
+    from contracts import c03_prov as P
     rel = EX + "pdf/pdf_extractor.py"
     m = loader.module(rel, repo)
-    fn = m.functions.get("read_pdf")
-    oid = "C03/pdf_extractor.py::read_pdf/construction#one-PdfPage-per-reader-page-in-order"
-    if fn is None:
-        return C.add(oid, None, "read_pdf missing")
-    loops = find_loops(fn, lambda n: isinstance(n, ast.For) and "reader.pages" in ast.unparse(n.iter))
-    if len(loops) != 1:
-        return C.add(oid, None, f"{len(loops)} loops over reader.pages")
-    lp = loops[0]
-    it = ast.unparse(lp.iter).replace(" ", "")
-    if _reordered(lp.iter):
-        return C.add(oid, False, f"pages are re-ordered before they are numbered: {it[:80]}", f"{rel}:{lp.lineno}")
-    if it not in ("enumerate(reader.pages,start=1)", "enumerate(reader.pages,1)", "reader.pages", "enumerate(reader.pages)"):
-        return C.add(oid, None, f"iterable {it}")
-    # the list handed to PdfContent(pages=...)
-    ctor = [n for n in ast.walk(fn) if isinstance(n, ast.Call) and dotted(n.func) == "PdfContent" and kw(n, "pages") is not None]
-    if len(ctor) != 1 or not isinstance(kw(ctor[0], "pages"), ast.Name):
-        return C.add(oid, None, "PdfContent(pages=<name>) not found")
-    lst = kw(ctor[0], "pages").id
-    is_app = lambda n: method_call(n, lst, "append") and len(n.args) == 1 and isinstance(n.args[0], ast.Call) and dotted(n.args[0].func) == "PdfPage"
-    other_mut = [n for n in ast.walk(fn) if isinstance(n, ast.Call) and isinstance(n.func, ast.Attribute) and dotted(n.func.value) == lst
-                 and n.func.attr in ("insert", "pop", "remove", "sort", "reverse", "extend", "clear") or
-                 (method_call(n, lst, "append") and not any(n is x for x in ast.walk(lp)))]
-    inits = assigns_to(fn, lst)
-    ok, detail = per_iteration(lp, [is_app], {(1,)})
-    shape = len(inits) == 1 and isinstance(getattr(inits[0], "value", None), ast.List) and not inits[0].value.elts \
-        and inits[0].lineno < lp.lineno and not other_mut
-    if not shape:
-        return C.add(oid, None, f"list {lst}: inits={len(inits)} other mutations={len(other_mut)}")
-    C.add(oid, ok, detail, f"{rel}:{lp.lineno}")
-    C.fn(m, "read_pdf")
+    _order_site(C, m, rel, "read_pdf", "C03/pdf_extractor.py::read_pdf/construction#one-PdfPage-per-reader-page-in-order",
+                lambda fn: P.sink_arg(fn, "PdfContent", "pages"), ("reader.pages", ".pages"), "map", "PdfContent.pages")
 
 
 def _slide_loop(C, m, rel, fnq, oid, iter_pred, callee, numarg, ctor, field):
@@ -324,8 +458,9 @@ def _returns_numbered(C, m, rel, fnq, oid, ctor, field, param, first_of_tuple=Fa
             bad.append(f"line {r.lineno}: returns {ast.unparse(v)[:40]}")
             continue
         k = kw(v, field)
+        k = _resolve_local(fn, k, fn) if k is not None else None
         if not (isinstance(k, ast.Name) and k.id == param):
-            C.add(oid, False, f"line {r.lineno}: {ctor}({field}={ast.unparse(k) if k is not None else '<default>'}) is not the {param} passed in", f"{rel}:{r.lineno}")
+            C.add(oid, None, f"line {r.lineno}: {ctor}({field}={ast.unparse(k) if k is not None else '<default>'}) is not (an alias of) the {param} passed in", f"{rel}:{r.lineno}")
             return
     # later stores to <obj>.<field>
     stores = [n for n in ast.walk(fn) if isinstance(n, ast.Attribute) and isinstance(n.ctx, ast.Store) and n.attr == field]
@@ -338,45 +473,27 @@ def _returns_numbered(C, m, rel, fnq, oid, ctor, field, param, first_of_tuple=Fa
 
 
 def _pptx(C, repo):
+    from contracts import c03_prov as P
     rel = EX + "ms_modern/pptx_extractor.py"
     m = loader.module(rel, repo)
-    _slide_loop(C, m, rel, "read_pptx", "C03/pptx_extractor.py::read_pptx/construction#slide-k-of-slide-order-gets-number-k",
-                lambda s: "slide_paths" in s, "_process_slide_from_context", 2, "PptxContent", "slides")
-    _returns_numbered(C, m, rel, "_process_slide_from_context",
-                      "C03/pptx_extractor.py::_process_slide_from_context/construction#returned-slide-carries-the-number-passed-in",
-                      "PptxSlide", "slide_number", "slide_number")
+    p_ = _order_site(C, m, rel, "read_pptx", "C03/pptx_extractor.py::read_pptx/construction#one-slide-per-entry-of-the-slide-order",
+                     lambda fn: P.sink_arg(fn, "PptxContent", "slides"), ("slide_order", "slide_paths"), "map", "PptxContent.slides")
+    _number_site(C, m, rel, "C03/pptx_extractor.py::read_pptx/construction#slide-k-of-slide-order-gets-number-k", p_, "PptxSlide", "slide_number")
     # slide order = document order of p:sldIdLst
-    oid = "C03/pptx_extractor.py::_PptxContext._compute_slide_order/construction#order-is-sldIdLst-document-order"
-    fn = m.functions.get("_PptxContext._compute_slide_order")
-    if fn is None:
-        return C.add(oid, None, "missing")
-    rets = [n for n in ast.walk(fn) if isinstance(n, ast.Return) and isinstance(n.value, ast.Name)]
-    if len(rets) != 1:
-        return C.add(oid, None, "no single `return <name>`")
-    lst = rets[0].value.id
-    loops = find_loops(fn, lambda n: isinstance(n, ast.For) and "findall(P_SLDID)" in ast.unparse(n.iter).replace(" ", ""))
-    if len(loops) != 1:
-        return C.add(oid, None, "loop over sldId elements not found")
-    lp = loops[0]
-    is_app = lambda n: method_call(n, lst, "append")
-    any_mut = lambda n: isinstance(n, ast.Call) and isinstance(n.func, ast.Attribute) and dotted(n.func.value) == lst and n.func.attr in (
-        "insert", "extend", "pop", "remove", "sort", "reverse", "clear")
-    ok, detail = per_iteration(lp, [is_app, any_mut], {(0, 0), (1, 0)})
-    outside = [n for n in ast.walk(fn) if (is_app(n) or any_mut(n)) and not any(n is x for x in ast.walk(lp))]
-    srt = [n for n in ast.walk(fn) if isinstance(n, ast.Call) and dotted(n.func) in ("sorted", "reversed")]
-    if outside or srt:
-        return C.add(oid, None, "slide path list reordered or filled outside the sldId loop")
-    C.add(oid, ok, detail, f"{rel}:{lp.lineno}")
-    C.fn(m, "_PptxContext._compute_slide_order")
+    fnq = "_PptxContext._compute_slide_order"
+    fn = m.functions.get(fnq)
+    _order_site(C, m, rel, fnq, "C03/pptx_extractor.py::_PptxContext._compute_slide_order/construction#order-is-sldIdLst-document-order",
+                lambda fn: [r.value for r in P._walk_fn(fn) if isinstance(r, ast.Return) and r.value is not None],
+                ("findall(P_SLDID)", "iter(P_SLDID)"), "filter", "the slide order")
 
 
 def _odp(C, repo):
+    from contracts import c03_prov as P
     rel = EX + "open_office/odp_extractor.py"
     m = loader.module(rel, repo)
-    _slide_loop(C, m, rel, "read_odp", "C03/odp_extractor.py::read_odp/construction#draw:page-k-gets-number-k",
-                lambda s: "draw:page" in s, "_extract_slide", 2, "OdpContent", "slides")
-    _returns_numbered(C, m, rel, "_extract_slide", "C03/odp_extractor.py::_extract_slide/construction#returned-slide-carries-the-number-passed-in",
-                      "OdpSlide", "slide_number", "slide_number", first_of_tuple=True)
+    p_ = _order_site(C, m, rel, "read_odp", "C03/odp_extractor.py::read_odp/construction#one-slide-per-draw:page-in-order",
+                     lambda fn: P.sink_arg(fn, "OdpContent", "slides"), ("draw:page",), "map", "OdpContent.slides")
+    _number_site(C, m, rel, "C03/odp_extractor.py::read_odp/construction#draw:page-k-gets-number-k", p_, "OdpSlide", "slide_number")
 
 
 def _epub(C, repo):
@@ -388,10 +505,19 @@ def _epub(C, repo):
     oid = "C03/epub_extractor.py::read_epub/construction#chapter-number-is-the-1-based-spine-position"
     if fn is None:
         return C.add(oid, None, "read_epub missing")
-    loops = find_loops(fn, lambda n: isinstance(n, ast.For) and ast.unparse(n.iter) == "ctx.spine")
-    if len(loops) != 1:
-        return C.add(oid, None, "loop over ctx.spine not found")
-    lp = loops[0]
+    from contracts import c03_prov as P
+    sinks = P.sink_arg(fn, "EpubContent", "chapters")
+    pr = P.provenance(P.Ctx(m, fn, "read_epub"), sinks[0]) if len(sinks) == 1 else None
+    if pr is None or pr.loop is None or not isinstance(pr.loop, ast.For):
+        return C.add(oid, None, "data flow into EpubContent.chapters not understood")
+    if pr.reordered:
+        return C.add(oid, False, pr.why, f"{rel}:{fn.lineno}")
+    if "spine" not in pr.root:
+        return C.add(oid, None, f"chapters are drawn from {pr.root}, expected the spine")
+    lp = pr.loop
+    if pr.index is not None:
+        # `for number, item_id in enumerate(<spine>, start=1)`: the index is the spine position
+        return _number_site(C, m, rel, oid, pr, "EpubChapter", "chapter_number")
     calls = [n for n in ast.walk(lp) if isinstance(n, ast.Call) and dotted(n.func) == "_extract_chapter"]
     if len(calls) != 1 or len(calls[0].args) < 3 or not isinstance(calls[0].args[2], ast.Name):
         return C.add(oid, None, "_extract_chapter(ctx, item_id, <counter>, ...) not found")
@@ -432,29 +558,7 @@ def _epub(C, repo):
 def _mbox(C, repo):
     rel = EX + "mail/mbox_email_extractor.py"
     m = loader.module(rel, repo)
-    fn = m.functions.get("_split_mbox_messages")
-    oid = "C03/mbox_email_extractor.py::_split_mbox_messages/construction#messages-in-separator-order-at-most-one-per-separator"
-    if fn is None:
-        C.add(oid, None, "missing")
-    else:
-        rets = [n for n in ast.walk(fn) if isinstance(n, ast.Return) and isinstance(n.value, ast.Name)]
-        loops = find_loops(fn, lambda n: isinstance(n, ast.For) and "matches" in ast.unparse(n.iter))
-        if len(rets) != 1 or len(loops) != 1:
-            C.add(oid, None, "shape")
-        else:
-            lst, lp = rets[0].value.id, loops[0]
-            app = lambda n: method_call(n, lst, "append")
-            mut = lambda n: isinstance(n, ast.Call) and isinstance(n.func, ast.Attribute) and dotted(n.func.value) == lst and n.func.attr != "append"
-            ok, detail = per_iteration(lp, [app, mut], {(0, 0), (1, 0)})
-            mdef = [d for d in assigns_to(fn, "matches") if isinstance(d, ast.Assign)]
-            order = len(mdef) == 1 and "finditer(data)" in ast.unparse(mdef[0].value) and "sorted" not in ast.unparse(mdef[0].value) \
-                and "reversed" not in ast.unparse(lp.iter)
-            outside = [n for n in ast.walk(fn) if (app(n) or mut(n)) and not any(n is x for x in ast.walk(lp))]
-            if not order or outside:
-                C.add(oid, None, "match list is not finditer(data) in order, or message list mutated elsewhere")
-            else:
-                C.add(oid, ok, detail, f"{rel}:{lp.lineno}")
-                C.fn(m, "_split_mbox_messages")
+    # _split_mbox_messages is under a symbolic contract (shared with C16: contracts/C16.py::split_contract); no shape check here.
     fn = m.functions.get("read_mbox_format_mail")
     oid = "C03/mbox_email_extractor.py::read_mbox_format_mail/construction#one-EmailContent-per-message-in-order"
     if fn is None:
@@ -497,7 +601,12 @@ def _rtf(C, repo):
     if len(loops) != 1:
         return C.add(oid, None, "main scanning loop not found")
     lp = loops[0]
-    fl = lambda n: isinstance(n, ast.Call) and dotted(n.func) == "flush_page"
+    closures = [n for n in fn.body if isinstance(n, ast.FunctionDef) and any(
+        isinstance(x, ast.Call) and isinstance(x.func, ast.Attribute) and x.func.attr == "append" and dotted(x.func.value) == "self.pages" for x in ast.walk(n))]
+    if len(closures) != 1:
+        return C.add(oid, None, f"{len(closures)} nested page-flush functions")
+    fname = closures[0].name
+    fl = lambda n: isinstance(n, ast.Call) and dotted(n.func) == fname
     in_loop = [n for n in ast.walk(lp) if fl(n)]
     after = [s for s in fn.body[fn.body.index(lp) + 1:] if isinstance(s, ast.Expr) and fl(s.value)]
     # inside the loop flush_page() is called exactly in the branch recognising \page / \sbkpage
@@ -509,7 +618,7 @@ def _rtf(C, repo):
     paths = iteration_paths(lp.body, [fl])
     ok = len(in_loop) == 1 and guard_ok and len(after) == 1 and all(v[0] <= 1 for (v, _s) in paths)
     direct = [n for n in ast.walk(fn) if isinstance(n, ast.Call) and isinstance(n.func, ast.Attribute) and dotted(n.func.value) == "self.pages"
-              and n.func.attr != "append"]
+              and n.func.attr != "append" and not any(n is x for x in ast.walk(closures[0]))]
     if direct:
         return C.add(oid, None, "self.pages mutated by other means")
     if not (in_loop and after):
@@ -538,91 +647,21 @@ def _ppt_entry(C, repo):
     C.fn(m, q)
 
 
-def _ordered_build(C, m, rel, fnq, oid, iter_pred, ctor, sink_ctor=None, sink_field=None, source_name=None):
-    """`for x in <source>: ... <list>.append(<ctor>(...)|<var>)` exactly once per iteration, list initialised to [], not
-    mutated elsewhere, reaching `return <list>` or <sink_ctor>(<sink_field>=<list>); the source is iterated as it is
-    (no sorted / reversed / set)."""
-    fn = m.functions.get(fnq)
-    if fn is None:
-        return C.add(oid, None, f"{fnq} missing")
-    loops = find_loops(fn, lambda n: isinstance(n, ast.For) and iter_pred(ast.unparse(n.iter)))
-    if len(loops) != 1:
-        return C.add(oid, None, f"{len(loops)} candidate loops")
-    lp = loops[0]
-    it = ast.unparse(lp.iter)
-    if any(w in it for w in ("sorted(", "reversed(", "set(")):
-        return C.add(oid, False, f"the source is re-ordered before iteration: {it}", f"{rel}:{lp.lineno}")
-    if sink_ctor is not None:
-        cons = [n for n in ast.walk(fn) if isinstance(n, ast.Call) and dotted(n.func) == sink_ctor and isinstance(kw(n, sink_field), ast.Name)]
-        if len(cons) != 1:
-            return C.add(oid, None, f"{sink_ctor}({sink_field}=<name>) not found")
-        lst = kw(cons[0], sink_field).id
-    else:
-        rets = [n for n in ast.walk(fn) if isinstance(n, ast.Return) and isinstance(n.value, ast.Name)]
-        if len(rets) != 1:
-            return C.add(oid, None, "no single `return <name>`")
-        lst = rets[0].value.id
-    app = lambda n: method_call(n, lst, "append") and len(n.args) == 1 and (
-        (isinstance(n.args[0], ast.Call) and dotted(n.args[0].func) == ctor) or isinstance(n.args[0], ast.Name))
-    mut = lambda n: isinstance(n, ast.Call) and isinstance(n.func, ast.Attribute) and dotted(n.func.value) == lst and n.func.attr in (
-        "append", "insert", "extend", "pop", "remove", "sort", "reverse", "clear")
-    ok, detail = per_iteration(lp, [app, mut], {(1, 1)})
-    outside = [n for n in ast.walk(fn) if mut(n) and not any(n is x for x in ast.walk(lp))]
-    inits = assigns_to(fn, lst)
-    if outside or len(inits) != 1 or not isinstance(getattr(inits[0], "value", None), ast.List) or inits[0].value.elts:
-        return C.add(oid, None, f"list {lst} mutated outside the loop or not initialised to []")
-    if source_name is not None:
-        # the iterated name is a parameter or assigned once from an expression that keeps the order
-        defs = [d for d in assigns_to(fn, source_name) if isinstance(d, (ast.Assign, ast.AnnAssign))]
-        for d in defs:
-            if any(w in ast.unparse(d.value) for w in ("sorted(", "reversed(", "set(", ".sort(")):
-                return C.add(oid, False, f"{source_name} is re-ordered: {ast.unparse(d.value)[:60]}", f"{rel}:{d.lineno}")
-        srt = [n for n in ast.walk(fn) if isinstance(n, ast.Call) and isinstance(n.func, ast.Attribute) and dotted(n.func.value) == source_name
-               and n.func.attr in ("sort", "reverse")]
-        if srt:
-            return C.add(oid, False, f"{source_name}.{srt[0].func.attr}() re-orders the source", f"{rel}:{srt[0].lineno}")
-    C.add(oid, ok, detail, f"{rel}:{lp.lineno}")
-    C.fn(m, fnq)
-
-
 def _sheets(C, repo):
+    from contracts import c03_prov as P
     rel = EX + "ms_modern/xlsx_extractor.py"
     m = loader.module(rel, repo)
-    _ordered_build(C, m, rel, "_read_content_from_workbook", "C03/xlsx_extractor.py::_read_content_from_workbook/construction#one-sheet-per-sheet-name-in-order",
-                   lambda s: s == "sheet_names", "XlsxSheet", source_name="sheet_names")
-    # read_xlsx hands the workbook's own sheet order to it, and the result to XlsxContent
-    oid = "C03/xlsx_extractor.py::read_xlsx/construction#sheets-in-workbook-order"
-    fn = m.functions.get("read_xlsx")
-    if fn is None:
-        C.add(oid, None, "missing")
-    else:
-        calls = [n for n in ast.walk(fn) if isinstance(n, ast.Call) and dotted(n.func) == "_read_content_from_workbook"]
-        defs = [d for d in assigns_to(fn, "sheet_names") if isinstance(d, ast.Assign)]
-        cons = [n for n in ast.walk(fn) if isinstance(n, ast.Call) and dotted(n.func) == "XlsxContent" and isinstance(kw(n, "sheets"), ast.Name)]
-        shape = len(calls) == 1 and len(calls[0].args) == 2 and ast.unparse(calls[0].args[1]) == "sheet_names" and len(defs) == 1 and len(cons) == 1
-        if not shape:
-            C.add(oid, None, "shape")
-        else:
-            src = ast.unparse(defs[0].value).replace(" ", "")
-            lst = kw(cons[0], "sheets").id
-            a = [d for d in assigns_to(fn, lst) if isinstance(d, ast.Assign)]
-            reorder = [n for n in ast.walk(fn) if isinstance(n, ast.Call) and ((isinstance(n.func, ast.Attribute) and dotted(n.func.value) in (lst, "sheet_names")
-                       and n.func.attr in ("sort", "reverse", "insert", "pop", "remove", "append", "extend")) or dotted(n.func) in ("sorted", "reversed"))]
-            if src not in ("list(wb.sheetnames)", "wb.sheetnames"):
-                C.add(oid, False if ("sorted" in src or "reversed" in src) else None, f"sheet_names = {src}", f"{rel}:{defs[0].lineno}")
-            elif reorder or len(a) != 1 or a[0].value is not calls[0]:
-                C.add(oid, None, "sheet list re-ordered or not the direct result of _read_content_from_workbook")
-            else:
-                C.add(oid, True, "sheet_names = list(wb.sheetnames) -> _read_content_from_workbook -> XlsxContent(sheets=...)", f"{rel}:{fn.lineno}")
-                C.fn(m, "read_xlsx")
+    _order_site(C, m, rel, "read_xlsx", "C03/xlsx_extractor.py::read_xlsx/construction#sheets-in-workbook-order",
+                lambda fn: P.sink_arg(fn, "XlsxContent", "sheets"), ("sheetnames", "worksheets"), "map", "XlsxContent.sheets")
     rel = EX + "ms_legacy/xls_extractor.py"
     m = loader.module(rel, repo)
-    _ordered_build(C, m, rel, "_read_content", "C03/xls_extractor.py::_read_content/construction#one-sheet-per-workbook-sheet-in-order",
-                   lambda s: s.replace(" ", "") == "workbook.sheets()", "XlsSheet")
+    _order_site(C, m, rel, "read_xls", "C03/xls_extractor.py::read_xls/construction#one-sheet-per-workbook-sheet-in-order",
+                lambda fn: P.sink_arg(fn, "XlsContent", "sheets"), ("sheets()", "sheet_names()", "sheet_by_index"), "map", "XlsContent.sheets")
     rel = EX + "open_office/ods_extractor.py"
     m = loader.module(rel, repo)
-    _slide_loop(C, m, rel, "read_ods", "C03/ods_extractor.py::read_ods/construction#table-k-becomes-sheet-k",
-                lambda s: "table:table" in s, "_extract_sheet", 2, "OdsContent", "sheets")
+    p_ = _order_site(C, m, rel, "read_ods", "C03/ods_extractor.py::read_ods/construction#one-sheet-per-table:table-in-order",
+                     lambda fn: P.sink_arg(fn, "OdsContent", "sheets"), ("table:table",), "map", "OdsContent.sheets")
+    # ods sheets are numbered by position in iterate_units (enumerate there), nothing stored: no numbering obligation
 
 
 def _opaque_members_pure(C, repo):
@@ -777,8 +816,15 @@ def _list_counter_iterator_(G, C, m, cls, unit, q, fn, base):
     singles_ok = True
     for kind, s, _ok in groups:
         if kind == "single":
-            v = s.value.value
-            singles_ok &= isinstance(v, ast.Call) and dotted(v.func) == unit and isinstance(kw(v, "unit_number"), ast.Constant) and kw(v, "unit_number").value == 1
+            v = _resolve_local(fn, s.value.value, fn)
+            if isinstance(v, ast.Name):
+                d_ = [a for a in assigns_to(fn, v.id) if isinstance(a, (ast.Assign, ast.AnnAssign))]
+                v = d_[0].value if len(d_) == 1 else v
+            if not (isinstance(v, ast.Call) and dotted(v.func) == unit and isinstance(kw(v, "unit_number"), ast.Constant)):
+                singles_ok = None if singles_ok is not False else False
+                continue
+            if kw(v, "unit_number").value != 1:
+                singles_ok = False
     if not ok:
         G.add("units-numbered-1..m-in-yield-order", None, f"yield groups: {[(g[0], g[1].lineno, g[2]) for g in groups]}")
     else:
